@@ -281,12 +281,13 @@ def duck_input(nv, nq, npm, positive_acoustic=True):
         for q in range(nq):
             # generic spectrum: distinct values, NOT ascending in the mode index, branches crossing between volumes (mode-following order)
             modes = [100.0 + 37.0 * ((7 * m + 3 * q + 5 * v * (m % 3)) % 11) + 0.01 * (m + 10 * q + 100 * v) for m in range(npm)]
+            modes[npm - 1] = 333.0 + q                                  # a branch that does not move with volume (gamma = 0) is a mode like any other
             if q == 0 and not positive_acoustic:
                 modes[:3] = [0.0, -0.1, 0.0]
             qps.append(models.QPointData((0.0, 0.0, 0.1 * q), modes))
         # volume blocks in a generic (neither ascending nor descending) order: the per-mode routines that do not need monotone abscissae accept any listing
         vols.append(models.VolumeData(0.0, 900.0 - 40 * ((3 * v + 1) % nv if nv % 3 else (2 * v + 1) % nv if nv % 2 else v), -1.0, qps))
-    return models.QHAInputData(nv, nq, npm, 1, npm // 3, [((0, 0, 0.1 * q), 1.0) for q in range(nq)], vols)
+    return models.QHAInputData(nv, nq, npm, 1, npm // 3, [((0, 0, 0.1 * q), (2.0, 0.0, 1e-9)[q % 3]) for q in range(nq)], vols)       # weights: unnormalised, a q-point listed with weight 0 (band path), a tiny one
 
 
 def dispatch(mg):
